@@ -97,30 +97,35 @@ def cases(rng, tier, shard, nshards):
                    "strings": ["".join(rng.choice(al) for _ in range(n)) for _ in range(50)]}
 
 
+def path_link_overlap_doc(rng):
+    """GFA1 paths whose overlaps agree or not with the overlaps of the links."""
+    ovs = ["*", "5M", "6M"]
+    out = ["S\ta\t*", "S\tb\t*", "S\tc\t*"]
+    steps = [("a", "+", "b", "+"), ("b", "+", "c", rng.choice("+-"))]
+    for f, fo, t, to in steps:
+        if rng.random() < 0.85:
+            ov = rng.choice(ovs)
+            if rng.random() < 0.3 and ov != "*":
+                out.append("L\t%s\t%s\t%s\t%s\t%s" % (t, S.inv(to), f, S.inv(fo), ov))
+            else:
+                out.append("L\t%s\t%s\t%s\t%s\t%s" % (f, fo, t, to, ov))
+    for pn in ["p", "q"][:rng.randint(1, 2)]:
+        n = rng.choice([2, 2, 3])
+        names = ["a+", "b+", "c" + steps[1][3]][:n]
+        if rng.random() < 0.3:
+            pov = "*"
+        else:
+            pov = ",".join(rng.choice(ovs) for _ in range(n - 1))
+        out.append("P\t%s\t%s\t%s" % (pn, ",".join(names), pov))
+    rng.shuffle(out)
+    return out
+
+
 def cross_field_doc(rng):
     """documents built to sit on one cross-field rule (valid and invalid by that rule)."""
     k = rng.randrange(10)
-    if k == 9:      # GFA1 paths whose overlaps agree or not with the overlaps of the links
-        ovs = ["*", "5M", "6M"]
-        out = ["S\ta\t*", "S\tb\t*", "S\tc\t*"]
-        steps = [("a", "+", "b", "+"), ("b", "+", "c", rng.choice("+-"))]
-        for f, fo, t, to in steps:
-            if rng.random() < 0.85:
-                ov = rng.choice(ovs)
-                if rng.random() < 0.3 and ov != "*":
-                    out.append("L\t%s\t%s\t%s\t%s\t%s" % (t, S.inv(to), f, S.inv(fo), ov))
-                else:
-                    out.append("L\t%s\t%s\t%s\t%s\t%s" % (f, fo, t, to, ov))
-        for pn in ["p", "q"][:rng.randint(1, 2)]:
-            n = rng.choice([2, 2, 3])
-            names = ["a+", "b+", "c" + steps[1][3]][:n]
-            if rng.random() < 0.3:
-                pov = "*"
-            else:
-                pov = ",".join(rng.choice(ovs) for _ in range(n - 1))
-            out.append("P\t%s\t%s\t%s" % (pn, ",".join(names), pov))
-        rng.shuffle(out)
-        return out
+    if k == 9:
+        return path_link_overlap_doc(rng)
     if k == 8:      # a group defined on several lines, its tags agreeing or not (the verdict on a
         # disagreement is not the grammar's, but it cannot depend on the order of the lines)
         rt = rng.choice("UO")
